@@ -11,6 +11,10 @@
   correspondence check (partial w.r.t. floating point and FFT accuracy).
 -/
 import BB.Proofs.RC
+import BB.Proofs.G7Interp
+import BB.Proofs.G7Round6
+import BB.Model.Blueprint
+import BB.Model.Ripasso
 import Mathlib.Data.Rat.Floor
 
 namespace BB.C12
@@ -208,5 +212,489 @@ theorem axisOk_rejects (tf_freqs : List ℚ) (SR : ℚ) (round6 : ℚ → ℚ) :
       have := h l hl
       simp only [Bool.and_eq_false_iff, decide_eq_false_iff_not, not_le]
       right; exact this
+
+/-! ## the public operations, with their argument checks (round 8)
+
+  `applyRC inverse x SR kind f_cut order DCgain` is `applyRCFilter` (`inverse = false`) /
+  `applyInverseRCFilter` (`inverse = true`) of ripasso.py in exact arithmetic: the two guards
+  (`kind not in ["HP","LP"]`, `not DCgain > 0`, regenerated as `Gen.filterKinds` /
+  `Gen.dcGainBad`), then `real(ifft(fft(x)·_rcFilter(SR, N, f_cut, kind, ±order, DCgain)))`.
+  `applyCustomC x SR tf_freqs tf_amp invert` is `applyCustomTransferFunction`.
+  Same shape as the executable `Float` model `BB.Rip.applyRC` / `BB.Rip.applyCustom`
+  (Model/Ripasso.lean), which the correspondence check compares with the implementation. -/
+
+open BB.G7
+
+/-- the first-order response `_rcFilter` uses for a (checked) kind: `if kind == "HP": … elif
+    kind == "LP": …` -/
+noncomputable def rcBase (kind : String) (SR fc DCgain : ℝ) (k : ZMod N) : ℂ :=
+  if kind = "HP" then baseHP SR fc DCgain k else baseLP SR fc k
+
+/-- `_rcFilter(SR, N, f_cut, kind, order, DCgain)[k]` for a (checked) kind -/
+noncomputable def rcGrid (kind : String) (SR fc DCgain : ℝ) (order : ℤ) (k : ZMod N) : ℂ :=
+  if kind = "HP" then gridHP SR fc DCgain order k else gridLP SR fc order k
+
+/-- `applyRCFilter` (`inverse = false`) and `applyInverseRCFilter` (`inverse = true`) -/
+noncomputable def applyRC (inverse : Bool) (x : ZMod N → ℂ) (SR : ℝ) (kind : String) (fc : ℝ) (order : ℤ)
+    (DCgain : ℚ) : Except Err (ZMod N → ℂ) :=
+  if kind ∉ Gen.filterKinds then .error .value
+  else if inverse && Gen.dcGainBad DCgain then .error .value
+  else .ok (applyTF x (rcGrid kind SR fc (DCgain : ℝ)
+        (if inverse then rcOrderInverse order else rcOrderForward order)))
+
+/-- `applyRCFilter(signal, SR, kind, f_cut, order, DCgain=0)` -/
+noncomputable def applyRCFilter (x : ZMod N → ℂ) (SR : ℝ) (kind : String) (fc : ℝ) (order : ℤ) (DCgain : ℚ := 0) :=
+  applyRC false x SR kind fc order DCgain
+
+/-- `applyInverseRCFilter(signal, SR, kind, f_cut, order, DCgain=1)` -/
+noncomputable def applyInverseRCFilter (x : ZMod N → ℂ) (SR : ℝ) (kind : String) (fc : ℝ) (order : ℤ) (DCgain : ℚ := 1) :=
+  applyRC true x SR kind fc order DCgain
+
+omit [NeZero N] in
+theorem rcGrid_eq_pow (kind : String) (SR fc DCgain : ℝ) (order : ℤ) (k : ZMod N) :
+    rcGrid kind SR fc DCgain order k = (rcBase kind SR fc DCgain k) ^ order := by
+  unfold rcGrid rcBase gridHP gridLP rcPow
+  split <;> rfl
+
+theorem rcGrid_herm (kind : String) (SR fc DCgain : ℝ) (order : ℤ) (k : ZMod N) (hny : 2 * k.val ≠ N) :
+    conj (rcGrid kind SR fc DCgain order (-k)) = rcGrid kind SR fc DCgain order k := by
+  unfold rcGrid
+  split
+  · exact gridHP_herm SR fc DCgain order k hny
+  · exact gridLP_herm SR fc order k hny
+
+omit [NeZero N] in
+/-- the response the public operation uses is the high-pass response for `"HP"` and the low-pass
+    response for `"LP"` (whose values `H_values` states) -/
+theorem rcBase_kinds (SR fc DCgain : ℝ) (k : ZMod N) :
+    rcBase "HP" SR fc DCgain k = baseHP SR fc DCgain k ∧ rcBase "LP" SR fc DCgain k = baseLP SR fc k := by
+  constructor
+  · simp [rcBase]
+  · simp [rcBase]
+
+/-- **what `H` is at the public operation**: `"HP"` → `i·ωτ/(1+i·ωτ)` away from DC and the stated
+    DC gain at `f = 0`; `"LP"` → `1/(1+i·ωτ)`; `ω = 2π·f_k`, `τ = 1/f_cut` -/
+theorem rcBase_values (SR fc DCgain : ℝ) (hSR : SR ≠ 0) (hfc : fc ≠ 0) (k : ZMod N) :
+    (k ≠ 0 → rcBase "HP" SR fc DCgain k =
+        (I * (2 * Real.pi * freq N SR k * (1 / fc) : ℝ)) / (1 + I * (2 * Real.pi * freq N SR k * (1 / fc) : ℝ))) ∧
+    rcBase (N := N) "HP" SR fc DCgain 0 = DCgain ∧
+    rcBase "LP" SR fc DCgain k = 1 / (1 + I * (2 * Real.pi * freq N SR k * (1 / fc) : ℝ)) := by
+  rw [(rcBase_kinds SR fc DCgain k).1, (rcBase_kinds SR fc DCgain k).2, (rcBase_kinds SR fc DCgain 0).1]
+  exact H_values SR fc DCgain hSR hfc k
+
+/-- **dispatch on the kind**: the public operations are the four pipelines `applyHP`, `applyLP`,
+    `applyInvHP`, `applyInvLP` of the first part of this file; the compensation needs a positive
+    DC gain for both kinds (the check comes before the dispatch) -/
+theorem applyRC_dispatch (x : ZMod N → ℂ) (SR fc : ℝ) (order : ℤ) (DCgain : ℚ) :
+    applyRC false x SR "HP" fc order DCgain = .ok (applyHP x SR fc DCgain order) ∧
+    applyRC false x SR "LP" fc order DCgain = .ok (applyLP x SR fc order) ∧
+    (0 < DCgain → applyRC true x SR "HP" fc order DCgain = .ok (applyInvHP x SR fc DCgain order)) ∧
+    (0 < DCgain → applyRC true x SR "LP" fc order DCgain = .ok (applyInvLP x SR fc order)) := by
+  refine ⟨?_, ?_, fun h => ?_, fun h => ?_⟩
+  · simp [applyRC, Gen.filterKinds, applyHP]; rfl
+  · simp [applyRC, Gen.filterKinds, applyLP]; rfl
+  · simp [applyRC, Gen.filterKinds, Gen.dcGainBad, h, applyInvHP]; rfl
+  · simp [applyRC, Gen.filterKinds, Gen.dcGainBad, h, applyInvLP]; rfl
+
+example : (0 : ℚ) < 1 := by decide
+
+/-- the defaults: `applyRCFilter` has `DCgain = 0`, `applyInverseRCFilter` has `DCgain = 1` -/
+theorem applyRC_defaults (x : ZMod N → ℂ) (SR fc : ℝ) (order : ℤ) :
+    applyRCFilter x SR "HP" fc order = .ok (applyHP x SR fc 0 order) ∧
+    applyInverseRCFilter x SR "HP" fc order = .ok (applyInvHP x SR fc 1 order) := by
+  constructor
+  · have := (applyRC_dispatch x SR fc order 0).1
+    simpa [applyRCFilter] using this
+  · have := (applyRC_dispatch x SR fc order 1).2.2.1 (by norm_num)
+    simpa [applyInverseRCFilter] using this
+
+/-- **when the public operation raises**: exactly for an unknown kind, or — compensation only — a
+    DC gain that is not positive; it is always a `ValueError` -/
+theorem applyRC_error_iff (inverse : Bool) (x : ZMod N → ℂ) (SR fc : ℝ) (kind : String) (order : ℤ) (DCgain : ℚ) :
+    applyRC inverse x SR kind fc order DCgain = .error .value ↔
+      (kind ≠ "HP" ∧ kind ≠ "LP") ∨ (inverse = true ∧ DCgain ≤ 0) := by
+  unfold applyRC
+  by_cases hk : kind ∈ Gen.filterKinds
+  · have hk2 : ¬ (kind ≠ "HP" ∧ kind ≠ "LP") := by
+      simp only [Gen.filterKinds, List.mem_cons, List.not_mem_nil, or_false] at hk
+      tauto
+    simp only [hk, not_true_eq_false, if_false, hk2, false_or]
+    cases inverse
+    · simp
+    · simp [Gen.dcGainBad]
+  · have hk2 : kind ≠ "HP" ∧ kind ≠ "LP" := by
+      simp only [Gen.filterKinds, List.mem_cons, List.not_mem_nil, or_false, not_or] at hk
+      exact hk
+    simp [hk, hk2]
+
+/-- … and otherwise it succeeds (no other exception) -/
+theorem applyRC_ok_iff (inverse : Bool) (x : ZMod N → ℂ) (SR fc : ℝ) (kind : String) (order : ℤ) (DCgain : ℚ) :
+    (∃ y, applyRC inverse x SR kind fc order DCgain = .ok y) ↔
+      (kind = "HP" ∨ kind = "LP") ∧ (inverse = true → 0 < DCgain) := by
+  unfold applyRC
+  by_cases hk : kind ∈ Gen.filterKinds
+  · have hk2 : kind = "HP" ∨ kind = "LP" := by
+      simpa [Gen.filterKinds] using hk
+    simp only [hk, not_true_eq_false, if_false, hk2, true_and]
+    cases inverse
+    · simp
+    · by_cases hd : 0 < DCgain
+      · simp [Gen.dcGainBad, hd]
+      · simp [Gen.dcGainBad, hd]
+  · have hk2 : ¬ (kind = "HP" ∨ kind = "LP") := by
+      simpa [Gen.filterKinds] using hk
+    simp [hk, hk2]
+
+example : (∃ y, applyRC (N := 4) true (fun _ => 1) 10 "LP" 3 2 (1/2) = .ok y) :=
+  (applyRC_ok_iff (N := 4) true _ 10 3 "LP" 2 (1/2)).mpr ⟨Or.inr rfl, fun _ => by norm_num⟩
+
+/-- what a successful call returns -/
+theorem applyRC_ok (inverse : Bool) (x y : ZMod N → ℂ) (SR fc : ℝ) (kind : String) (order : ℤ) (DCgain : ℚ)
+    (h : applyRC inverse x SR kind fc order DCgain = .ok y) :
+    y = applyTF x (rcGrid kind SR fc (DCgain : ℝ) (if inverse then -order else order)) := by
+  unfold applyRC at h
+  split at h
+  · cases h
+  · split at h
+    · cases h
+    · have := Except.ok.inj h
+      rw [← this]
+      cases inverse <;> rfl
+
+/-- **C12, public statement for both kinds and both directions**: whenever
+    `applyRCFilter` / `applyInverseRCFilter` returns, the result is a real signal of the input
+    length and every bin other than Nyquist (in particular every bin below the Nyquist frequency)
+    is the input's bin times `H(f_k)^order`, respectively `H(f_k)^(−order)`, with `H` the response
+    of the requested kind -/
+theorem applyRC_bins (inverse : Bool) (x y : ZMod N → ℂ) (hx : IsReal x) (SR fc : ℝ) (kind : String) (order : ℤ)
+    (DCgain : ℚ) (h : applyRC inverse x SR kind fc order DCgain = .ok y) :
+    IsReal y ∧ ∀ k : ZMod N, 2 * k.val ≠ N →
+      𝓕 y k = 𝓕 x k * (rcBase kind SR fc (DCgain : ℝ) k) ^ (if inverse then -order else order) := by
+  have hy := applyRC_ok inverse x y SR fc kind order DCgain h
+  subst hy
+  refine ⟨applyTF_real _ _, fun k hny => ?_⟩
+  rw [dft_applyTF x _ hx k (rcGrid_herm kind SR fc _ _ k hny), rcGrid_eq_pow]
+
+example : applyRC (N := 5) false (fun _ => 1) 10 "HP" 3 2 0 =
+    .ok (applyTF (fun _ => 1) (rcGrid "HP" 10 3 ((0 : ℚ) : ℝ) 2)) := by
+  simp [applyRC, Gen.filterKinds, rcOrderForward]
+
+/-- at the Nyquist bin (even `N`, `k = N/2`) the public operation multiplies the input's real
+    component by the real part of the grid value -/
+theorem applyRC_nyquist (inverse : Bool) (x y : ZMod N → ℂ) (hx : IsReal x) (SR fc : ℝ) (kind : String) (order : ℤ)
+    (DCgain : ℚ) (h : applyRC inverse x SR kind fc order DCgain = .ok y) (k : ZMod N) (hk : -k = k) :
+    𝓕 y k = 𝓕 x k *
+      ((((rcBase kind SR fc (DCgain : ℝ) k) ^ (if inverse then -order else order)).re : ℝ) : ℂ) := by
+  have hy := applyRC_ok inverse x y SR fc kind order DCgain h
+  subst hy
+  rw [dft_applyTF_nyquist x _ hx k hk, rcGrid_eq_pow]
+
+/-- **linearity** of the public operation: it accepts `a·x + b·y` whenever it accepts `x`
+    (acceptance does not depend on the signal) and returns the same combination of the results -/
+theorem applyRC_linear (inverse : Bool) (x y fx fy : ZMod N → ℂ) (a b : ℝ) (SR fc : ℝ) (kind : String) (order : ℤ)
+    (DCgain : ℚ) (h1 : applyRC inverse x SR kind fc order DCgain = .ok fx)
+    (h2 : applyRC inverse y SR kind fc order DCgain = .ok fy) :
+    applyRC inverse (fun j => (a : ℂ) * x j + (b : ℂ) * y j) SR kind fc order DCgain =
+      .ok (fun j => (a : ℂ) * fx j + (b : ℂ) * fy j) := by
+  have e1 := applyRC_ok inverse x fx SR fc kind order DCgain h1
+  have e2 := applyRC_ok inverse y fy SR fc kind order DCgain h2
+  obtain ⟨z, hz⟩ := (applyRC_ok_iff inverse (fun j => (a : ℂ) * x j + (b : ℂ) * y j) SR fc kind order DCgain).mpr
+    ((applyRC_ok_iff inverse x SR fc kind order DCgain).mp ⟨fx, h1⟩)
+  rw [hz, applyRC_ok inverse _ z SR fc kind order DCgain hz, applyTF_linear, e1, e2]
+
+/-! ### division by zero in `_rcFilter` (what Lean's `0⁻¹ = 0` would hide) -/
+
+/-- the only zero of the patched response is the DC bin of a high pass with `DCgain = 0`; raised to
+    a **negative** order (`applyRCFilter(…, order < 0)` with the default `DCgain = 0`) numpy
+    computes `0j ** -n` = `inf+nanj` and the whole output is `nan`.  In Lean `0 ^ (−n) = 0`, so
+    the theorems above say "the DC bin is removed" for that call: an artefact.  Guard:
+    `DCgain ≠ 0 ∨ 0 ≤ order` (always true for `applyInverseRCFilter`, which requires
+    `DCgain > 0`). -/
+theorem hp_dc_negative_order_artifact (SR fc : ℝ) (order : ℤ) (ho : order < 0) :
+    gridHP (N := N) SR fc 0 order 0 = 0 := by
+  unfold gridHP rcPow
+  rw [baseHP_dc]
+  simp [zero_zpow _ (ne_of_lt ho)]
+
+/-- under the guard no power of zero with a negative exponent is ever taken: every grid value
+    is a non-zero number to an integer power, or zero to a non-negative power -/
+theorem rc_no_zero_division (kind : String) (SR fc : ℝ) (DCgain : ℝ) (order : ℤ)
+    (hg : DCgain ≠ 0 ∨ 0 ≤ order) (k : ZMod N) :
+    rcBase kind SR fc DCgain k ≠ 0 ∨ 0 ≤ order := by
+  unfold rcBase
+  split
+  · rcases hg with hg | hg
+    · exact Or.inl (baseHP_ne_zero SR fc DCgain hg k)
+    · exact Or.inr hg
+  · exact Or.inl (baseLP_ne_zero SR fc k)
+
+example : ((1 : ℝ) ≠ 0 ∨ (0 : ℤ) ≤ -2) := Or.inl one_ne_zero
+
+/-- the compensation never meets the zero: a positive DC gain makes every grid value non-zero -/
+theorem inverse_no_zero_division (kind : String) (SR fc : ℝ) (DCgain : ℚ) (hd : 0 < DCgain) (k : ZMod N) :
+    rcBase kind SR fc (DCgain : ℝ) k ≠ 0 := by
+  unfold rcBase
+  split
+  · exact baseHP_ne_zero SR fc _ (by exact_mod_cast hd.ne') k
+  · exact baseLP_ne_zero SR fc k
+
+/-! ### `applyCustomTransferFunction` -/
+
+/-- the validation with numpy's own rounding: `np.diff(tf_freqs).round(6) > 0` everywhere and
+    `tf_freqs[-1] >= SR/2` -/
+def axisOk6 (tf_freqs : List ℚ) (SR : ℚ) : Bool := axisOk tf_freqs SR round6
+
+/-- `transferfun = concatenate((interp(freqax_pos), interp(-freqax_neg[::-1])[::-1]))` -/
+def customTF (N : ℕ) (SR : ℚ) (tfFreqs tfAmp : List ℚ) : List ℚ :=
+  customAssemble (interpQ tfFreqs tfAmp) (freqaxQ N SR) N
+
+/-- `applyCustomTransferFunction(signal, SR, tf_freqs, tf_amp, invert)`: the two axis checks
+    (`ValueError`, then `IndexError` on an empty axis / `MissingFrequenciesError`), `np.interp`'s
+    own length check (`ValueError`), then `real(ifft(fft(x) · transferfun**(±1)))` -/
+noncomputable def applyCustomC (x : ZMod N → ℂ) (SR : ℚ) (tfFreqs tfAmp : List ℚ) (invert : Bool) :
+    Except Err (ZMod N → ℂ) :=
+  if !((tfFreqs.zip tfFreqs.tail).all (fun (a, b) => 0 < round6 (b - a))) then .error .value
+  else match tfFreqs.getLast? with
+    | none => .error .index
+    | some l =>
+      if ¬ (SR / 2 ≤ l) then .error .missingfreq
+      else if tfAmp.length ≠ tfFreqs.length then .error .value
+      else .ok (applyTF x (fun k => (((customTF N SR tfFreqs tfAmp).getD k.val 0 : ℚ) : ℂ) ^ (if invert then (-1 : ℤ) else 1)))
+
+/-- **acceptance ⇔**: the axis is accepted exactly when every rounded difference is positive and
+    the last point reaches `SR/2` -/
+theorem axisOk_iff (tf_freqs : List ℚ) (SR : ℚ) (r : ℚ → ℚ) :
+    axisOk tf_freqs SR r = true ↔
+      (∀ p ∈ tf_freqs.zip tf_freqs.tail, 0 < r (p.2 - p.1)) ∧ ∃ l, tf_freqs.getLast? = some l ∧ SR / 2 ≤ l := by
+  unfold axisOk
+  rw [Bool.and_eq_true, List.all_eq_true]
+  constructor
+  · rintro ⟨h1, h2⟩
+    refine ⟨fun p hp => by simpa using h1 p hp, ?_⟩
+    cases hl : tf_freqs.getLast? with
+    | none => simp [hl] at h2
+    | some l => exact ⟨l, rfl, by simpa [hl] using h2⟩
+  · rintro ⟨h1, l, hl, h2⟩
+    exact ⟨fun p hp => by simpa using h1 p hp, by simpa [hl] using h2⟩
+
+/-- with numpy's rounding to six decimals: accepted ⇔ every step exceeds `5·10⁻⁷` and the last
+    point reaches `SR/2` -/
+theorem axisOk6_iff (tf_freqs : List ℚ) (SR : ℚ) :
+    axisOk6 tf_freqs SR = true ↔
+      (∀ p ∈ tf_freqs.zip tf_freqs.tail, 1 / 2000000 < p.2 - p.1) ∧ ∃ l, tf_freqs.getLast? = some l ∧ SR / 2 ≤ l := by
+  unfold axisOk6
+  rw [axisOk_iff]
+  simp only [round6_pos_iff]
+
+example : axisOk6 [0, 1, 5] 10 = true := by decide +kernel
+
+/-- `b ≤ a ⇒ rejected`: an axis with two consecutive points that do not increase is not accepted -/
+theorem axisOk6_rejects_nonincreasing (tf_freqs : List ℚ) (SR : ℚ) (a b : ℚ)
+    (hp : (a, b) ∈ tf_freqs.zip tf_freqs.tail) (hle : b ≤ a) : axisOk6 tf_freqs SR = false := by
+  apply (axisOk_rejects tf_freqs SR round6).1
+  exact ⟨(a, b), hp, round6_nonpos _ (by simpa using hle)⟩
+
+example : ((2 : ℚ), (2 : ℚ)) ∈ ([0, 2, 2, 5] : List ℚ).zip ([0, 2, 2, 5] : List ℚ).tail := by decide
+
+/-- an accepted axis is strictly increasing (so the interpolation specification applies) and not
+    empty -/
+theorem axisOk6_increasing (tf_freqs : List ℚ) (SR : ℚ) (h : axisOk6 tf_freqs SR = true) :
+    tf_freqs.Pairwise (· < ·) ∧ tf_freqs ≠ [] := by
+  obtain ⟨h1, l, hl, -⟩ := (axisOk6_iff tf_freqs SR).mp h
+  refine ⟨pairwise_of_consecutive _ (fun p hp => ?_), ?_⟩
+  · have := h1 p hp; linarith
+  · rintro rfl; simp at hl
+
+/-- **acceptance at the public operation**: it returns exactly when the axis passes the validation
+    and `tf_amp` is as long as `tf_freqs` -/
+theorem applyCustomC_ok_iff (x : ZMod N → ℂ) (SR : ℚ) (tfFreqs tfAmp : List ℚ) (invert : Bool) :
+    (∃ y, applyCustomC x SR tfFreqs tfAmp invert = .ok y) ↔
+      axisOk6 tfFreqs SR = true ∧ tfAmp.length = tfFreqs.length := by
+  unfold applyCustomC axisOk6 axisOk
+  by_cases h1 : (tfFreqs.zip tfFreqs.tail).all (fun (a, b) => decide (0 < round6 (b - a))) = true
+  · simp only [h1, Bool.not_true, Bool.false_eq_true, if_false, Bool.true_and]
+    cases hl : tfFreqs.getLast? with
+    | none => simp
+    | some l =>
+      by_cases h2 : SR / 2 ≤ l
+      · by_cases h3 : tfAmp.length = tfFreqs.length
+        · simp [h2, h3]
+        · simp [h2, h3]
+      · simp [h2]
+  · simp [h1]
+
+/-- **rejection at the public operation**: a step that does not survive the rounding (in
+    particular any `b ≤ a`) is a `ValueError`; an axis that stops short of `SR/2` is a
+    `MissingFrequenciesError`; the checks come in this order -/
+theorem applyCustomC_rejects (x : ZMod N → ℂ) (SR : ℚ) (tfFreqs tfAmp : List ℚ) (invert : Bool) :
+    ((∃ p ∈ tfFreqs.zip tfFreqs.tail, p.2 ≤ p.1) → applyCustomC x SR tfFreqs tfAmp invert = .error .value) ∧
+    ((∀ p ∈ tfFreqs.zip tfFreqs.tail, 1 / 2000000 < p.2 - p.1) →
+      ∀ l, tfFreqs.getLast? = some l → l < SR / 2 → applyCustomC x SR tfFreqs tfAmp invert = .error .missingfreq) := by
+  constructor
+  · rintro ⟨p, hp, hle⟩
+    have : (tfFreqs.zip tfFreqs.tail).all (fun (a, b) => decide (0 < round6 (b - a))) = false := by
+      rw [List.all_eq_false]
+      exact ⟨p, hp, by simpa using round6_nonpos _ (by linarith)⟩
+    simp [applyCustomC, this]
+  · intro h1 l hl hlt
+    have : (tfFreqs.zip tfFreqs.tail).all (fun (a, b) => decide (0 < round6 (b - a))) = true := by
+      rw [List.all_eq_true]
+      intro p hp
+      simpa using (round6_pos_iff _).mpr (h1 p hp)
+    simp [applyCustomC, this, hl, not_le.mpr hlt]
+
+example : ∀ p ∈ ([0, 1, 3] : List ℚ).zip ([0, 1, 3] : List ℚ).tail, 1 / 2000000 < p.2 - p.1 := by decide +kernel
+
+theorem customTF_length (N : ℕ) (SR : ℚ) (tfFreqs tfAmp : List ℚ) : (customTF N SR tfFreqs tfAmp).length = N := by
+  unfold customTF
+  rw [customAssemble_spec]
+  simp [freqaxQ]
+  omega
+
+/-- the magnitude of the fftfreq frequency of bin `k` -/
+def absFreqQ (N : ℕ) (SR : ℚ) (k : ℕ) : ℚ := |(fftIdx N k : ℚ) * SR / N|
+
+omit [NeZero N] in
+/-- the rational frequency is the real one of `freq` -/
+theorem absFreqQ_cast (SR : ℚ) (k : ZMod N) : ((absFreqQ N SR k.val : ℚ) : ℝ) = |freq N (SR : ℝ) k| := by
+  unfold absFreqQ freq
+  push_cast
+  rfl
+
+/-- `|f_{−k}| = |f_k|` for every bin (also DC and Nyquist) -/
+theorem absFreqQ_neg (SR : ℚ) (k : ZMod N) : absFreqQ N SR (-k).val = absFreqQ N SR k.val := by
+  by_cases hk : k = 0
+  · subst hk; simp
+  by_cases hny : 2 * k.val = N
+  · have : -k = k := by
+      have h2 : k + k = 0 := by
+        have : ((k.val + k.val : ℕ) : ZMod N) = 0 := by
+          rw [show k.val + k.val = N by omega]; exact ZMod.natCast_self N
+        simpa using this
+      exact neg_eq_of_add_eq_zero_left h2
+    rw [this]
+  · unfold absFreqQ
+    rw [fftIdx_neg k hk hny]
+    push_cast
+    rw [neg_mul, neg_div, abs_neg]
+
+/-- the transfer function the public operation multiplies with, bin by bin: the user's function
+    linearly interpolated at `|f_k|` -/
+theorem customTF_getD (SR : ℚ) (hSR : 0 < SR) (tfFreqs tfAmp : List ℚ) (k : ZMod N) :
+    (customTF N SR tfFreqs tfAmp).getD k.val 0 = interpQ tfFreqs tfAmp (absFreqQ N SR k.val) := by
+  unfold customTF absFreqQ
+  rw [List.getD_eq_getElem?_getD, custom_grid _ N SR hSR k.val (ZMod.val_lt k)]
+  rfl
+
+/-- **C12, custom transfer function, public statement**: whenever
+    `applyCustomTransferFunction` returns, the result is real and **every** bin `k` — odd and even
+    lengths alike, the Nyquist bin included, because the interpolated function is real — is the
+    input's bin times the user's transfer function linearly interpolated at `|f_k|`, to the power
+    `−1` with `invert=True` -/
+theorem applyCustomC_bins (x y : ZMod N → ℂ) (hx : IsReal x) (SR : ℚ) (hSR : 0 < SR) (tfFreqs tfAmp : List ℚ)
+    (invert : Bool) (h : applyCustomC x SR tfFreqs tfAmp invert = .ok y) :
+    IsReal y ∧ ∀ k : ZMod N,
+      𝓕 y k = 𝓕 x k * ((interpQ tfFreqs tfAmp (absFreqQ N SR k.val) : ℚ) : ℂ) ^ (if invert then (-1 : ℤ) else 1) := by
+  unfold applyCustomC at h
+  split at h
+  · cases h
+  · split at h
+    · cases h
+    · split at h
+      · cases h
+      · split at h
+        · cases h
+        · have hy := Except.ok.inj h
+          subst hy
+          refine ⟨applyTF_real _ _, fun k => ?_⟩
+          rw [dft_applyTF x _ hx k]
+          · rw [customTF_getD SR hSR]
+          · simp only [map_zpow₀]
+            rw [customTF_getD SR hSR, customTF_getD SR hSR, absFreqQ_neg]
+            congr 1
+            exact map_ratCast (starRingEnd ℂ) _
+
+/-- a successful call interpolates a strictly increasing, non-empty axis with as many amplitudes
+    as frequencies — the hypotheses of the interpolation specification below -/
+theorem applyCustomC_ok_axis (x y : ZMod N → ℂ) (SR : ℚ) (tfFreqs tfAmp : List ℚ) (invert : Bool)
+    (h : applyCustomC x SR tfFreqs tfAmp invert = .ok y) :
+    tfFreqs.Pairwise (· < ·) ∧ tfFreqs ≠ [] ∧ tfFreqs.length = tfAmp.length := by
+  obtain ⟨h1, h2⟩ := (applyCustomC_ok_iff x SR tfFreqs tfAmp invert).mp ⟨y, h⟩
+  obtain ⟨h3, h4⟩ := axisOk6_increasing tfFreqs SR h1
+  exact ⟨h3, h4, h2.symm⟩
+
+/-- **`np.interp` specification** for the function the public operation interpolates with (`xp`
+    strictly increasing, `len(fp) = len(xp)`): it passes through the knots, is affine between
+    adjacent knots, and is clamped to the first / last amplitude outside the axis -/
+theorem interp_spec (xp fp : List ℚ) (hs : xp.Pairwise (· < ·)) (hlen : xp.length = fp.length) :
+    (∀ i (hi : i < xp.length), interpQ xp fp xp[i] = fp[i]'(by omega)) ∧
+    (∀ i (hi : i + 1 < xp.length) (x : ℚ), xp[i] ≤ x → x ≤ xp[i + 1] →
+      interpQ xp fp x = (fp[i + 1]'(by omega) - fp[i]'(by omega)) / (xp[i + 1] - xp[i]) * (x - xp[i]) + fp[i]'(by omega)) ∧
+    (∀ x0 f0, xp.head? = some x0 → fp.head? = some f0 → ∀ x, x ≤ x0 → interpQ xp fp x = f0) ∧
+    (∀ xl fl, xp.getLast? = some xl → fp.getLast? = some fl → ∀ x, xl ≤ x → interpQ xp fp x = fl) :=
+  ⟨fun i hi => interpQ_knot xp fp hs hlen i hi,
+   fun i hi x h1 h2 => interpQ_segment xp fp hs hlen i hi x h1 h2,
+   fun x0 f0 h0 hf x hx => interpQ_left xp fp x0 f0 h0 hf x hx,
+   fun xl fl hxl hfl x hx => interpQ_right xp fp hs hlen xl fl hxl hfl x hx⟩
+
+example : interpQ [0, 2, 4] [1, 3, 2] 1 = 2 ∧ interpQ [0, 2, 4] [1, 3, 2] 3 = 5 / 2 ∧
+    interpQ [0, 2, 4] [1, 3, 2] (-1) = 1 ∧ interpQ [0, 2, 4] [1, 3, 2] 7 = 2 ∧ interpQ [0, 2, 4] [1, 3, 2] 2 = 3 := by
+  decide +kernel
+
+/-- **linearity** of the public custom operation -/
+theorem applyCustomC_linear (x y fx fy : ZMod N → ℂ) (a b : ℝ) (SR : ℚ) (tfFreqs tfAmp : List ℚ) (invert : Bool)
+    (h1 : applyCustomC x SR tfFreqs tfAmp invert = .ok fx) (h2 : applyCustomC y SR tfFreqs tfAmp invert = .ok fy) :
+    applyCustomC (fun j => (a : ℂ) * x j + (b : ℂ) * y j) SR tfFreqs tfAmp invert =
+      .ok (fun j => (a : ℂ) * fx j + (b : ℂ) * fy j) := by
+  unfold applyCustomC at h1 h2 ⊢
+  split
+  · rename_i hc; simp [hc] at h1
+  · rename_i hc
+    simp only [hc, Bool.false_eq_true, if_false] at h1 h2
+    split
+    · rename_i hl; simp [hl] at h1
+    · rename_i l hl
+      simp only [hl] at h1 h2
+      split
+      · rename_i hc2; simp [hc2] at h1
+      · rename_i hc2
+        simp only [hc2, if_false] at h1 h2
+        split
+        · rename_i hc3; simp [hc3] at h1
+        · rename_i hc3
+          simp only [hc3, if_false] at h1 h2
+          rw [← Except.ok.inj h1, ← Except.ok.inj h2, applyTF_linear]
+
+/-- a strictly increasing axis whose step is at most `5·10⁻⁷` is **rejected** (the implementation
+    rounds the differences to six decimals before it compares): "strictly increasing" alone does
+    not imply acceptance -/
+theorem tiny_step_rejected :
+    ([0, 1 / 4000000, 5] : List ℚ).Pairwise (· < ·) ∧ axisOk6 [0, 1 / 4000000, 5] 10 = false := by
+  constructor
+  · decide +kernel
+  · decide +kernel
+
+/-! ### the executable `Float` model has the same skeleton
+
+  `BB.Rip.applyRC` (Model/Ripasso.lean) is what the correspondence check runs against the
+  implementation.  Floating-point arithmetic is opaque to the kernel, but the control skeleton is
+  not: same kind guard (the regenerated `Gen.filterKinds`), same DC-gain guard position, same
+  `±order`, same `fftfreq` index function as the exact operation `applyRC` above. -/
+
+theorem rip_applyRC_skeleton (inverse : Bool) (x : Array Float) (SR : Float) (kind : String) (fc : Float)
+    (order : ℤ) (dc : Float) :
+    BB.Rip.applyRC inverse x SR kind fc order dc =
+      if kind ∉ Gen.filterKinds then .error .value
+      else if inverse && !(dc > 0) then .error .value
+      else .ok (BB.Rip.applyTF x (BB.Rip.rcTF kind SR fc (if inverse then -order else order) dc x.size)) := by
+  unfold BB.Rip.applyRC
+  by_cases h1 : kind = "HP"
+  · subst h1; simp [Gen.filterKinds]
+  · by_cases h2 : kind = "LP"
+    · subst h2; simp [Gen.filterKinds]
+    · simp [Gen.filterKinds, h1, h2]
+
+/-- the `fftfreq` index function of the executable model is the one of the theorems -/
+theorem rip_fftIdx_eq : BB.Rip.fftIdx = BB.RC.fftIdx := rfl
 
 end BB.C12
